@@ -480,6 +480,22 @@ def storedArgs : Callable α → List α
   | .base _ self binds => if binds then self.toList else []
   | .part _ a0 _ inner => storedArgs inner ++ a0
 
+/-- keys of a keyword dictionary -/
+def keys {α} (d : Kw α) : List String := d.map Prod.fst
+
+/-- keyword lookup through the stored keywords: the outermost partial wins over the inner ones -/
+def storedKw {α} (k : String) : Callable α → Option α
+  | .base _ _ _ => none
+  | .part _ _ k0 inner =>
+    match dictGet k k0 with
+    | some v => some v
+    | none => storedKw k inner
+
+/-- every stored keyword dictionary is a real dict (distinct keys) -/
+def Callable.kwDistinct {α} : Callable α → Prop
+  | .base _ _ _ => True
+  | .part _ _ k0 inner => (keys k0).Nodup ∧ inner.kwDistinct
+
 /-- Documented condition of the fallback warning: always, except for source-less environments. -/
 def warnsFor (exc : ExcClass) (env : Env) : Bool :=
   match exc with
